@@ -27,7 +27,8 @@ COQCHK = ["Properties.C09"]
 RULE = ("exhaustive: every string key of length <= 3 over the 23-character hostile alphabet (quick: all of length <= 2 and a seeded slice of length 3), "
         "as the only key and embedded in key sequences; random: key sequences of depth <= 4 mixing hostile strings (length <= 6), ints (negative too), "
         "half-integer floats, None, True/False and list/tuple indexes, inside containers with sibling entries; diffs with 3-8 changed leaves under one "
-        "container at depth 0-2 (list-form path of every leaf level, asked twice, and of every ancestor level); a case is non-trivial when the sequence "
+        "container at depth 0-2 (list-form path of every leaf level, asked twice, and of every ancestor level); default-mode diffs of edited scalar lists "
+        "planted under such key sequences (every reported entry, t1 and t2 side); a case is non-trivial when the sequence "
         "is non-empty; distinct = distinct (key sequence, object)")
 TRUSTED = ["ast.literal_eval is modelled on the sub-language reachable from rendered paths (prefixed quoted strings, signed decimal ints / point floats "
            "with underscores, None/True/False, Python's white-space rules); other inputs make the model answer 'unsupported' and are counted, not compared",
@@ -663,6 +664,123 @@ def multi_leaf(ctx, pool, n):
     ctx.coq_cases("multi_leaf", HEADER, cases, shard=100, label="multi_leaf")
 
 
+# ---- heavily edited scalar lists in default alignment mode: every reported entry ----
+
+def gen_list_pair(rng):
+    """(a, b): either harness.values.gen_atom_list_pair or a targeted shape
+    insert/delete, equal block, replace block whose sides differ in length, equal block."""
+    alphabet = rng.choice([["a", "b", "c", "d"], list(range(8)), ["a", 1, None, 2.5, "b", 7], list("ABCDEFGHIJ"), ["x", "y"]])
+    if rng.random() < 0.5:
+        a, b, _k = values.gen_atom_list_pair(rng, maxlen=10, alphabet=alphabet)
+        return a, b
+    pick = lambda n: [rng.choice(alphabet) for _ in range(n)]
+    eq1, eq2 = pick(rng.randint(1, 3)), pick(rng.randint(0, 2))
+    old, new = pick(rng.randint(0, 2)), pick(rng.randint(1, 4))
+    fresh = ["X", "Y", "Z", 91, 92]
+    new = [rng.choice(fresh) if rng.random() < 0.7 else x for x in new]
+    shift = pick(rng.randint(1, 2))
+    if rng.random() < 0.5:
+        old, new = new, old
+    if rng.random() < 0.5:
+        return eq1 + old + eq2, shift + eq1 + new + eq2          # insert first
+    return shift + eq1 + old + eq2, eq1 + new + eq2              # delete first
+
+
+def same_object(got, want):
+    return got is want or (type(got) is type(want) and values.typed_eq(got, want))
+
+
+def observe_list_edit(prefix, a, b, sib_seed):
+    """Every entry DeepDiff reports (tree view) must name, on each side it has an
+    object for, the location of exactly that object.  Returns (cases, failure)."""
+    from deepdiff import DeepDiff, extract
+    from deepdiff.helper import notpresent
+    obj1 = build(prefix, list(a), sib_seed)
+    obj2 = build(prefix, list(b), sib_seed)
+    raw = [x for _t, x in prefix]
+    tree = DeepDiff(obj1, obj2, ignore_private_variables=False, view="tree")
+    why = None
+    cases = []
+    nent = 0
+    for report_type, levels in tree.items():
+        for level in levels:
+            nent += 1
+            for side, obj, want, kw in (("t1", obj1, level.t1, {}), ("t2", obj2, level.t2, {"use_t2": True})):
+                if want is notpresent:
+                    continue
+                p = level.path(**kw)
+                lp = level.path(output_format="list", **kw)
+                where = "%s entry, %s side, path %r" % (report_type, side, p)
+                try:
+                    got = extract(obj, p)
+                    ex = ["Some", canon_val(got)]
+                    if why is None and not same_object(got, want):
+                        why = "%s: extract returns %r, the entry's own %s object is %r" % (where, got, side, want)
+                except Exception as e:
+                    ex = None
+                    if why is None:
+                        why = "%s: extract raised %s: %s (the entry's own %s object is %r)" % (where, type(e).__name__, e, side, want)
+                ks = None
+                if isinstance(lp, list) and len(lp) >= len(raw) and typed_seq_eq(lp[:len(raw)], raw) \
+                        and all(type(x) is int and x >= 0 for x in lp[len(raw):]):
+                    ks = list(prefix) + [("x", x) for x in lp[len(raw):]]
+                    try:
+                        got2 = values.get_at(obj, lp)
+                        if why is None and not same_object(got2, want):
+                            why = "%s: the list-form path %r leads to %r, the entry's own %s object is %r" % (where, lp, got2, side, want)
+                    except Exception as e:
+                        if why is None:
+                            why = "%s: the list-form path %r does not exist in %s (%s)" % (where, lp, side, type(e).__name__)
+                elif why is None:
+                    why = "%s: list-form path %r is not the container's key sequence %r followed by indexes" % (where, lp, raw)
+                if ks is not None:
+                    cases.append((obj, ks, [p, ex, ["Some", canon_val(want)]]))
+    return cases, why, nent
+
+
+def _list_task(args):
+    prefix, a, b, sib_seed = args
+    logging.disable(logging.CRITICAL)
+    try:
+        cases, why, nent = observe_list_edit(prefix, a, b, sib_seed)
+    except Exception as e:
+        return (args, [], "the path API raised %s: %s" % (type(e).__name__, e), 0)
+    return (args, [("c09_extract_case %s %s" % (values.to_coq(o), coq_path(ks)), exp) for o, ks, exp in cases], why, nent)
+
+
+def list_case(prefix, a, b, sib_seed, why=None):
+    d = {"list_edit": {"prefix": [key_json(k) for k in prefix], "a": a, "b": b, "sib_seed": sib_seed},
+         "python": "every level of DeepDiff(build(prefix,a), build(prefix,b), ignore_private_variables=False, view='tree'); "
+                   "prefix = %r, a = %r, b = %r" % ([x for _t, x in prefix], a, b)}
+    if why:
+        d["failure"] = why
+    return d
+
+
+def list_edits(ctx, pool, n):
+    rng = ctx.rng
+    inputs = [([], ["B", "C", "D"], ["A", "B", "C", "X", "Y"], None)]
+    while len(inputs) < n:
+        prefix = [gen_key(rng, pool) for _ in range(rng.randint(0, 3))]
+        if not path_ok(prefix):
+            continue                    # K5/K6 keys are exercised elsewhere; here every failure is about the location
+        a, b = gen_list_pair(rng)
+        inputs.append((prefix, a, b, rng.randrange(1 << 30) if rng.random() < 0.5 else None))
+    with mp.get_context("fork").Pool(core.NCPU) as pool_:
+        res = pool_.map(_list_task, inputs, chunksize=16)
+    cases = []
+    for (prefix, a, b, sib_seed), cs, why, nent in res:
+        ctx.seen(("list_edit", repr(prefix), repr(a), repr(b), sib_seed), nontrivial=nent > 0)
+        ctx.count("list_edits:reported_entries", nent)
+        ctx.count("list_edits:%s" % ("length_changes" if len(a) != len(b) else "same_length"))
+        if why:
+            ctx.fail(list_case(prefix, a, b, sib_seed, why), why)
+        for expr, exp in cs:
+            cases.append((expr, exp, list_case(prefix, a, b, sib_seed)))
+    ctx.sample({"list_edit": {"prefix": [x for _t, x in inputs[1][0]], "a": inputs[1][1], "b": inputs[1][2]}})
+    ctx.coq_cases("list_edits", HEADER, cases, shard=250, label="list_edits")
+
+
 # ---- refuted witnesses still fail on the implementation -----------------------
 
 def witnesses(ctx):
@@ -682,6 +800,7 @@ def run(ctx):
     pool = pool2 + len3[:2000]
     embedded(ctx, pool, 6000 if ctx.thorough else 1200)
     multi_leaf(ctx, pool, 1500 if ctx.thorough else 300)
+    list_edits(ctx, pool, 2500 if ctx.thorough else 400)
     parser_strings(ctx, 3000 if ctx.thorough else 600)
     extract_positions(ctx, 400 if ctx.thorough else 80)
 
@@ -698,6 +817,15 @@ def replay(ctx, data):
             ctx.fail(case_dict(ks, case.get("sib_seed"), why), why)
         if exp is not None:
             ctx.coq_cases("replay", HEADER, [("c09_case_or %s %s (%s)" % (coq_path(ks), values.to_coq(obj1), core.sx(exp)), exp, case)])
+    elif "list_edit" in case:
+        le = case["list_edit"]
+        prefix = [key_unjson(j) for j in le["prefix"]]
+        cs, why, nent = observe_list_edit(prefix, le["a"], le["b"], le.get("sib_seed"))
+        ctx.seen(("replay", repr(le)), nontrivial=True)
+        print("replay: prefix=%r a=%r b=%r entries=%d failure=%r" % ([x for _t, x in prefix], le["a"], le["b"], nent, why))
+        if why:
+            ctx.fail(list_case(prefix, le["a"], le["b"], le.get("sib_seed"), why), why)
+        ctx.coq_cases("replay", HEADER, [("c09_extract_case %s %s" % (values.to_coq(o), coq_path(ks)), exp, case) for o, ks, exp in cs])
     elif "locations" in case:
         locs = [[key_unjson(j) for j in l] for l in case["locations"]]
         exp, why = observe_multi(locs)
